@@ -784,6 +784,12 @@ func (c *EvalCtx) index(e *Expr) TV {
 		ref := tb.Add(bv.Ref, tb.Mul(x.toInt(i), tb.IntC(slotSize(at.Elem()))))
 		return TV{V: StructV{H: bv.H, Ref: ref, T: at.Elem()}, T: at.Elem()}
 	case *Term:
+		if isString(base.T) {
+			bt := types.Typ[types.Uint8]
+			v := tb.UF("gstr.at", x.sortOf(bt), bv, i)
+			x.axiom(x.typeInv(v, bt, nil))
+			return TV{V: v, T: bt}
+		}
 		if at, ok := base.T.Underlying().(*types.Array); ok && bv.Sort.Kind == SArray {
 			v := x.sel(bv, i)
 			x.axiom(x.typeInv(v, at.Elem(), nil))
